@@ -27,7 +27,7 @@ import lib
 from lib import g_str, g_path, g_tree, g_bool
 from isla.derivation_tree import DerivationTree as T
 from isla import language as L
-from isla.z3_helpers import z3_eq
+from isla.z3_helpers import z3_eq, smt_expr_to_str
 from isla import cli
 from grammar_graph import gg
 
@@ -430,6 +430,56 @@ def smt_pickle(formula):
     return ("ok", [decode_as_string(v.as_string()) for v in string_values(g.formula, [])], g.formula.eq(formula))
 
 
+def ref_isla_literal(cps):
+    """spec-side reference of the ISLa unparser's rendering of a literal (Z3's as_string, quote as
+    backslash-quote, NUL as \\u{0}); independent of smt_expr_to_str"""
+    a = mk_strval(cps).as_string()
+    return ('"' + a.replace('"', '\\"') + '"').replace("\\u{}", "\\u{0}")
+
+
+def literal_segment(text):
+    """the quoted literal inside the unparse text of a formula with exactly one string literal"""
+    i, j = text.find('"'), text.rfind('"')
+    return text[i:j + 1] if 0 <= i < j else None
+
+
+def smt_mixed_history(cps, rng):
+    """unparse / str and pickle in random order on a formula object and on a second formula sharing the
+    literal.  Returns (ops, failures, last unparse literal text)"""
+    lit = mk_strval(cps)
+    objs = [L.SMTFormula(smt_contexts(lit, rng), XCONST), L.SMTFormula(smt_contexts(lit, rng), XCONST)]
+    ref = ref_isla_literal(cps)
+    first = rng.choice(["unparse", "pickle"])
+    ops = [(first, 0)] + [(rng.choice(["unparse", "str", "pickle"]), rng.randrange(2)) for _ in range(rng.randint(1, 4))]
+    if not any(k == "pickle" for k, _ in ops):
+        ops.append(("pickle", rng.randrange(2)))
+    if not any(k != "pickle" for k, _ in ops):
+        ops.append(("unparse", rng.randrange(2)))
+    fails, seen, last = [], {}, None
+    for n, (kind, w) in enumerate(ops):
+        f = objs[w]
+        try:
+            if kind == "pickle":
+                g = pickle.loads(pickle.dumps(f))
+                if not g.formula.eq(f.formula):
+                    fails.append({"op": n, "what": "loaded formula differs from the original",
+                                  "loaded": L.unparse_isla(g)[:120]})
+            else:
+                text = L.unparse_isla(f) if kind == "unparse" else smt_expr_to_str(f.formula)
+                seg = literal_segment(text)
+                last = seg
+                if seg != ref:
+                    fails.append({"op": n, "what": "unparse text of the literal is not the ISLa rendering",
+                                  "text": text[:120], "expected_literal": ref})
+                if (w, kind) in seen and seen[(w, kind)] != text:
+                    fails.append({"op": n, "what": "unparse text of the same formula changed", "before": seen[(w, kind)][:120],
+                                  "after": text[:120]})
+                seen[(w, kind)] = text
+        except Exception as e:
+            fails.append({"op": n, "what": f"{kind} raised {type(e).__name__}", "detail": str(e)[:100]})
+    return ops, fails, last
+
+
 def g_nlist(l):
     return "[" + ";".join(map(str, l)) + "]%N" if l else "(@nil N)"
 
@@ -476,7 +526,8 @@ def run(run):
         "random nodes; non-trivial = history has a cache computation before a serialisation. SMT: literals of "
         "0-7 characters from a nasty pool (quote, backslash, u, braces, NUL, newline, 0x80-0xFF, >0xFF, astral) in "
         "6 operator contexts through real pickle; non-trivial = literal has a character that is escaped on either "
-        "side. CLI: derivation_tree_to_json (plain/pretty) -> get_input_string.")
+        "side; plus histories mixing unparse_isla / smt_expr_to_str and pickle in both orders on a formula and on a "
+        "second formula sharing the literal. CLI: derivation_tree_to_json (plain/pretty) -> get_input_string.")
     proof_ok = run.proof_stage()
     entries = lib.known_findings("C17")
     if not entries:   # known_findings.json not regenerated yet: same committed data, never written at check time
@@ -676,6 +727,36 @@ def run(run):
     except RuntimeError as e:
         run.violation({"kind": "correspondence-not-evaluable", "obligation": "SmtEscape.v smt_pickle_lit",
                        "error": str(e)[-2000:]}, found_input=False)
+    # unparse / pickle in both orders on the same formula object and on a formula sharing the literal
+    t_mixed = time.time()
+    cases, mlits = [], []
+    mhist = {"unparse_first": 0, "pickle_first": 0, "quote_or_latin1": 0}
+    mpool = [[34], [228], [97, 34, 98], [75, 228, 115, 101], [0], [92, 34], [255, 34, 128]]
+    for i in range(900 if thorough else 300):
+        cps = mpool[i] if i < len(mpool) else rand_cps(rng)
+        if i >= len(mpool) and rng.random() < 0.5:
+            cps = cps + [rng.choice([34, 228, 128, 255])]
+        ops, fails, last = smt_mixed_history(cps, rng)
+        special = K_smt_quote(cps) or K_smt_latin1(cps)
+        mhist["unparse_first" if ops[0][0] != "pickle" else "pickle_first"] += 1
+        mhist["quote_or_latin1"] += special
+        run.count(("smt-mixed", tuple(cps), tuple(ops)), special)
+        if fails:
+            violations.append({"kind": "unparsing and pickling an SMT formula interfere", "literal_chars": cps,
+                               "mixed_ops": [list(o) for o in ops], "failures": fails[:3]})
+        if last is not None:
+            cases.append(f"({g_nlist(cps)}, {g_nlist([ord(c) for c in last])})")
+            mlits.append(cps)
+    run.cov["smt_mixed_histogram"] = mhist
+    run.cov["seconds_smt_mixed_python"] = round(time.time() - t_mixed, 1)
+    try:
+        bad, _ = lib.coq_mismatches("c17g", "Outcome Str SmtEscape",
+                                    "fun c : str * str => str_eqb (isla_lit false (fst c)) (snd c)", cases, shard=150)
+        for i in bad:
+            disagreements.append({"part": "isla_lit false (ISLa unparser rendering after pickling)", "chars": mlits[i]})
+    except RuntimeError as e:
+        run.violation({"kind": "correspondence-not-evaluable", "obligation": "SmtEscape.v isla_lit false",
+                       "error": str(e)[-2000:]}, found_input=False)
     # formulas with two literals: property only
     for _ in range(100):
         a, b = rand_cps(rng, 4), rand_cps(rng, 4)
@@ -787,6 +868,25 @@ def replay(path):
         fails = property_at(graph, st, w_ops(w["ops"]))
         print("property failures:", fails)
         return 1 if fails else 0
+    if "mixed_ops" in w:
+        class _R:                       # replays the recorded op order exactly
+            def __init__(self, ops): self.ops = [tuple(o) for o in ops]
+        cps = w["literal_chars"]
+        lit = mk_strval(cps)
+        objs = [L.SMTFormula(z3_eq(XV, lit), XCONST), L.SMTFormula(z3.PrefixOf(lit, XV), XCONST)]
+        ref, bad = ref_isla_literal(cps), []
+        for kind, k in w["mixed_ops"]:
+            f = objs[k]
+            try:
+                if kind == "pickle":
+                    if not pickle.loads(pickle.dumps(f)).formula.eq(f.formula):
+                        bad.append((kind, k, "loaded formula differs"))
+                elif literal_segment(L.unparse_isla(f) if kind == "unparse" else smt_expr_to_str(f.formula)) != ref:
+                    bad.append((kind, k, "unparse text is not the ISLa rendering"))
+            except Exception as e:
+                bad.append((kind, k, type(e).__name__))
+        print("failures:", bad)
+        return 1 if bad else 0
     if "literal_chars" in w or "literal" in w:
         cps = w.get("literal_chars", w.get("literal"))
         if cps and isinstance(cps[0], list):
